@@ -33,7 +33,10 @@ CONSTANTS Stoppers, Clients, ProducerKind, MaxBlocks, MaxRuns, StartMayFail, RPC
           WriteClients,   \* clients whose request is WriteControl(START): their closure turns data writing on
           MaxPolls,       \* how often a waiting client's 50 ms poll is modelled as a step of its own
           PollOnce,       \* FALSE = as the code is: the poll repeats for as long as the request waits
-          WritingOutlivesRun \* TRUE = as the pinned code was: only a Stop that stops a running source turns writing off
+          WritingOutlivesRun, \* TRUE = as the pinned code was: only a Stop that stops a running source turns writing off
+          StopCheckThenAct   \* deviation (FALSE = as the code is): AnySource.Stop reads the state, releases the lock, and only
+                             \* then takes it again to set Stopping - decision and action are two steps (the hook vheld
+                             \* checks on the code that they are one critical section)
 
 VARIABLES st,        \* sourceState: "Inactive" | "Starting" | "Active" | "Stopping"   (under sourceStateLock)
           runDone,   \* the WaitGroup counter
@@ -170,12 +173,22 @@ StopCall(s) ==    \* SourceControl.Stop's flag check, then AnySource.Stop's stat
             [] st = "Starting" -> /\ panicked' = TRUE /\ UNCHANGED <<st, abortC, kpc, kres, writing, npoll>>
             [] st = "Stopping" -> /\ kpc' = [kpc EXCEPT ![s] = "post"] /\ kres' = [kres EXCEPT ![s] = "ok"]
                                   /\ UNCHANGED <<st, abortC, panicked, writing, npoll>>
-            [] st = "Active"   -> /\ st' = "Stopping" /\ abortC' = TRUE
-                                  /\ kpc' = [kpc EXCEPT ![s] = "signalled"] /\ kres' = [kres EXCEPT ![s] = "ok"]
-                                  /\ UNCHANGED panicked
+            [] st = "Active"   -> IF StopCheckThenAct
+                                  THEN /\ kpc' = [kpc EXCEPT ![s] = "decided"] /\ kres' = [kres EXCEPT ![s] = "ok"]
+                                       /\ UNCHANGED <<st, abortC, panicked>>
+                                  ELSE /\ st' = "Stopping" /\ abortC' = TRUE
+                                       /\ kpc' = [kpc EXCEPT ![s] = "signalled"] /\ kres' = [kres EXCEPT ![s] = "ok"]
+                                       /\ UNCHANGED panicked
   /\ act' = [a |-> "StopCall", s |-> s, r |-> kres'[s]]
   /\ kgen' = [kgen EXCEPT ![s] = gen]
   /\ UNCHANGED <<runDone, nbC, flag, spc, cpc, ctos, ppc, nblk, rpc, rres, runs, gen, donegen, writing, npoll>>
+
+StopAct(s) ==     \* deviation only: the second half of a torn Stop acts on the state it read a while ago
+  /\ Live /\ kpc[s] = "decided"
+  /\ st' = "Stopping" /\ abortC' = TRUE
+  /\ kpc' = [kpc EXCEPT ![s] = "signalled"] /\ kgen' = [kgen EXCEPT ![s] = gen]
+  /\ act' = [a |-> "StopAct", s |-> s]
+  /\ UNCHANGED <<runDone, nbC, flag, spc, cpc, ctos, ppc, nblk, kres, rpc, rres, runs, panicked, gen, donegen, writing, npoll>>
 
 StopWaited(s) ==  \* RunDoneWait returned (vpoint Stop.waited)
   /\ Live /\ kpc[s] = "signalled" /\ (IF SharedWaitGroup THEN runDone = 0 ELSE donegen >= kgen[s])
@@ -217,7 +230,7 @@ Next == \/ StartCall \/ StartSample \/ StartPrepare \/ StartActivate \/ StartRet
         \/ ProducerTick \/ ProducerAbort
         \/ CoreTakeBlock \/ CoreBlockDone \/ CoreTakeErr \/ CoreSeeClosed \/ CoreReqDone
         \/ \E c \in Clients : CoreTakeReq(c) \/ CoreSendResult(c) \/ ReqCall(c) \/ ReqGiveUp(c) \/ ReqPoll(c)
-        \/ \E s \in Stoppers : StopCall(s) \/ StopWaited(s) \/ StopReturn(s)
+        \/ \E s \in Stoppers : StopCall(s) \/ StopAct(s) \/ StopWaited(s) \/ StopReturn(s)
 
 \* fairness: every process keeps running if it can (a blocked channel operation is a disabled action).  All
 \* counters are bounded, so every behaviour reaches a terminal state; weak fairness per process is enough.
